@@ -494,7 +494,12 @@ func (p *renderState) renderExpression(expr ast.Expression, wrap bool, dot bool)
 			result += ops[expr.Operator] + ` ` + p.renderExpression(expr.Operand, false, true)
 		}
 		if wrap {
-			result = `{{ ` + result + ` -}}`
+			if expr.Operator == token.INCREMENT || expr.Operator == token.DECREMENT {
+				result = `{{ ` + result + ` -}}`
+			} else {
+				// a buffered value (`= -x`, `= !x`) must not swallow the white space that follows it
+				result = `{{` + result + `}}`
+			}
 		} else {
 			result = `(` + result + `)`
 		}
